@@ -7,7 +7,7 @@ expander (save stack); the generator only has to keep the program valid."""
 from .conds import alpha
 
 ALIAS_NAMES = ['zqla', 'zqlb', 'zqlc']
-SCOPES = ['{', '{', 'begingroup', 'center', 'quote', 'itemize', 'math', 'mathparen', 'tabular', 'textbf', 'mbox', 'emph', 'unknownenv', 'cmdenv', 'newenv']
+SCOPES = ['{', '{', 'begingroup', 'center', 'quote', 'itemize', 'math', 'mathparen', 'tabular', 'textbf', 'mbox', 'emph', 'unknownenv', 'cmdenv', 'newenv', 'marginpar']
 
 
 class ScopeGen(object):
@@ -141,6 +141,8 @@ class ScopeGen(object):
         if in_math:
             kinds = ['{', 'begingroup', 'unknownenv', 'nestedbox']
         kind = r.choice(kinds)
+        if kind == 'marginpar' and getattr(self, 'inopt', 0):
+            kind = '{'              # (a bracket argument cannot hold another bracket argument without braces around it)
         self.nscopes += 1
         self.kinds.add(kind)
         self.features.add('depth-%d' % depth)
@@ -170,6 +172,28 @@ class ScopeGen(object):
             s = '$' + self.definition(True) + self.block(depth, True) + '$'
         elif kind == 'mathparen':
             s = '\\(' + self.definition(True) + self.block(depth, True) + '\\)'
+        elif kind == 'marginpar':
+            # a command with two arguments, each a scope of its own: what the first one defines is gone when the second one is read
+            self.vis.pop()
+            self.atletter.pop()
+            parts = []
+            for opt in (True, False):
+                if opt and r.random() < 0.25:
+                    parts.append('')
+                    continue
+                self.vis.append({})
+                self.atletter.append(self.atletter[-1])
+                self.inarg += 1
+                self.inopt = getattr(self, 'inopt', 0) + (1 if opt else 0)
+                b = self.block(depth)
+                if r.random() < 0.6:
+                    b += self.probe()
+                self.inopt -= (1 if opt else 0)
+                self.inarg -= 1
+                self.vis.pop()
+                self.atletter.pop()
+                parts.append(('[%s]' if opt else '{%s}') % b)
+            return '\\marginpar' + ''.join(parts) + self.probe()
         elif kind == 'tabular':
             # every cell is its own scope
             self.vis.pop()
